@@ -20,7 +20,8 @@
 //             i = completes inside start(), p = stays pending (O = how it completes when it gets a
 //             stop notification, ign = ignores it); a = the sender declares is_always_scheduler_affine
 //             (otherwise task<> wraps it: finally(leaf, unstoppable(schedule(sched))) — a hop)
-//   events := start | stop | run | cI:O         run = the manual scheduler executes its oldest item
+//   events := start | stop | run | cI:O | c?:O   run = the manual scheduler executes its oldest item;
+//             c?:O completes whatever leaf is pending (a cleanup leaf always with v0)
 //   inl|man: the root receiver's scheduler completes schedule() inline / queues it until `run`
 //
 // After the scripted events the case is drained (queued scheduler items first, then the lowest
@@ -347,6 +348,16 @@ static std::string run_case(const std::string& line) {
       else if (ev == "run") {
         if (w.queue.empty()) w.emit("!!bad-op");
         else { auto* o = w.queue.front(); w.queue.pop_front(); o->run(); }
+      }
+      else if (ev.rfind("c?:", 0) == 0) {
+        // complete whatever leaf is pending (a cleanup leaf always with a value)
+        if (w.running.empty()) w.emit("!!bad-op");
+        else {
+          int i = w.running.begin()->first;
+          char ch; int v; parse_outcome(ev.substr(3), ch, v);
+          if (w.inCleanup[i]) { ch = 'v'; v = 0; }
+          w.running.begin()->second->complete(ch, v);
+        }
       }
       else if (ev[0] == 'c') {
         auto col = ev.find(':');
